@@ -38,7 +38,7 @@ class C14(core.Property):
           'over the branch conditions (ties between class scores, masked target values, fully masked '
           'sequences, k < 1 / k >= classes, logit masks with -inf/+inf, per_position, PerDomain wrapping, '
           'target_key/pred_key, prediction dtype float32/int32/int8/int64, -inf and extreme finite logits for the '
-          'loss-valued metrics); non-trivial = the reference statistic has a non-zero entry or the case is a '
+          'loss-valued metrics, label dtype uint8/int8/int16/uint16 with 12..100 classes); non-trivial = the reference statistic has a non-zero entry or the case is a '
           'fully masked sequence; distinct by case digest')
   TRUSTED = ['the reference definitions in Model/Metrics.lean transcribe the docstrings of '
              'fedjax/core/metrics.py (also re-stated independently in harness/vlib/metricslib.py)',
@@ -119,6 +119,14 @@ class C14(core.Property):
           row[t0] = -ml.BIGS[0]                             # extreme finite logits: the loss overflows float32
         ex['t'][0], ex['s'][0] = t0, row
         yield {'kind': 'ex', 'spec': spec, 'ex': ex, 'tkey': 'y', 'pkey': None}
+    for tdtype, C in (('uint8', 20), ('int8', 12), ('uint8', 62), ('int8', 100), ('int16', 100), ('uint16', 62)):
+      for name in ('cm', rng.choice(['acc', 'ce', 'topk', 'stacc', 'stce', 'count', 'oov'])):
+        spec = ml.gen_base_spec(rng, name, C, nonneg=True)
+        if rng.random() < 0.4:
+          spec = ['pd', spec, 2]
+        ex = ml.gen_example(rng, spec, rng.choice([1, 2]), C, 2 if spec[0] == 'pd' else 1, small=True)
+        ex['t'] = [rng.randrange(C - 3, C) for _ in ex['t']]
+        yield {'kind': 'ex', 'spec': spec, 'ex': ex, 'tkey': 'y', 'pkey': None, 'tdtype': tdtype}
     for name in ('stacc', 'sttopk'):
       for pdtype in ('int32', 'int8', 'int64'):
         C, L = rng.choice([3, 4]), rng.choice([1, 2, 3])
@@ -139,10 +147,17 @@ class C14(core.Property):
     C = rng.choice([1, 2, 3, 3, 4, 5, 6])
     L = rng.choice([1, 2, 3, 4, 5, 6])
     D = 1
+    # narrow label dtypes (raw label arrays) with enough classes that target * num_classes leaves their range
+    tdtype = 'int32'
+    if rng.random() < 0.12:
+      C = rng.choice([12, 20, 62, 100])
+      L = rng.choice([1, 2, 3])
+      tdtype = rng.choice(['uint8', 'int8', 'int16', 'uint16'])
+    nonneg = tdtype.startswith('u')
     if name == 'pd':
       # a third of the PerDomain cases wrap a loss-valued base (whose statistic can be non-finite)
       bname = rng.choice(['ce', 'stce', 'sce']) if rng.random() < 0.33 else rng.choice(ml.BASE_NAMES)
-      base = ml.gen_base_spec(rng, bname, C)
+      base = ml.gen_base_spec(rng, bname, C, nonneg)
       D = rng.randrange(1, 5)
       spec = ['pd', base, D]
       if rng.random() < 0.15:
@@ -150,13 +165,17 @@ class C14(core.Property):
         spec = ['pd', spec, D2]      # nested: the same domain id indexes both levels
         D = min(D, D2)
     else:
-      spec = ml.gen_base_spec(rng, name, C)
+      spec = ml.gen_base_spec(rng, name, C, nonneg)
     # prediction dtype: fedjax's docstrings/tests also feed integer arrays; extreme / -inf logits (float only)
     pdtype = 'float32'
     if ml.base_of(spec)[0] in ml.NEEDS_PRED and rng.random() < 0.4:
       pdtype = rng.choice(['int32', 'int8', 'int64'])
     extreme = pdtype == 'float32' and ml.is_loss(spec) and rng.random() < (0.7 if name == 'pd' else 0.45)
     ex = ml.gen_example(rng, spec, L, C, D, small=(pdtype == 'int8'), extreme=extreme)
+    if tdtype != 'int32':
+      for i in range(len(ex['t'])):
+        if rng.random() < 0.6:
+          ex['t'][i] = rng.randrange(max(0, C - 4), C)       # high class indices: target * num_classes is large
     if name == 'cm' and rng.random() < 0.1:
       spec = ['cm', C + rng.choice([-1, 1]) if C > 1 else C + 1]      # documented ValueError
       ex['t'] = [0]
@@ -165,6 +184,8 @@ class C14(core.Property):
     case = {'kind': 'ex', 'spec': spec, 'ex': ex, 'tkey': tkey, 'pkey': pkey}
     if pdtype != 'float32':
       case['pdtype'] = pdtype
+    if tdtype != 'int32':
+      case['tdtype'] = tdtype
     return case
 
   def _ident_case(self, rng):
@@ -210,6 +231,8 @@ class C14(core.Property):
       yield {**case, 'tkey': 'y', 'pkey': None}
     if case.get('pdtype'):
       yield {k: v for k, v in case.items() if k != 'pdtype'}
+    if case.get('tdtype'):
+      yield {k: v for k, v in case.items() if k != 'tdtype'}
     for i, row in enumerate(ex['s']):
       for j, v in enumerate(row):
         if not ml.is_moderate(v):
@@ -264,7 +287,7 @@ class C14(core.Property):
 
     def run(sp):
       metric = ml.build_metric(M, sp, tkey, pkey)
-      return metric.evaluate_example(ml.real_example(jnp, sp, ex, tkey),
+      return metric.evaluate_example(ml.real_example(jnp, sp, ex, tkey, tdtype=case.get('tdtype', 'int32')),
                                      ml.real_prediction(jnp, sp, ex, pkey, case.get('pdtype', 'float32')))
 
     b = ml.base_of(spec)
@@ -331,7 +354,9 @@ class C14(core.Property):
         else:
           got = flat[0].tolist()
           if got != ref:
-            problems.append(f'{name}: accum {got}, definition gives {ref}')
+            diff = [(i, g, r) for i, (g, r) in enumerate(zip(got, ref)) if g != r][:4]
+            problems.append(f'{name}: accum differs from the definition at (flat index, got, want) {diff}'
+                            if len(got) > 8 else f'{name}: accum {got}, definition gives {ref}')
           detail['impl'] = got
         detail['reference'] = ref
 
@@ -393,6 +418,9 @@ class C14(core.Property):
       tags.append('lmask=' + ('none' if lm is None else 'inf' if any(isinstance(x, str) for x in lm) else 'finite'))
     if case.get('pdtype'):
       tags.append('pred=' + case['pdtype'])
+    if case.get('tdtype'):
+      tags.append('target=' + case['tdtype'])
+      tags.append(f'classes={len(ex["s"][0])}')
     if has_extreme:
       tags.append('extreme/-inf-logits')
       if kind == 'mean' and any(not np.isfinite(a) for a, _ in ref):
